@@ -4,6 +4,7 @@ From SV Require Import Model.Common.
 From SV Require Model.Utf8 Model.Parser Model.Template Model.Transforms Model.Routing Model.Serializer Model.Packer
                Model.Framing.
 From SV Require Import Model.Pipeline.
+From SV Require Model.PipelinePool.
 
 
 (* ---------- programs: C15's byte encoding, extended by tags 14 (parseTime) and 15 (redactEmail) ---------- *)
@@ -292,7 +293,8 @@ Definition run_sample (c : case) : bytes :=
 
 (* kind 0: a sequence of records through one long-lived in-process pipeline
    kind 1: a byte stream (events as in C08) through the real multiLineReader into the same pipeline
-   kind 2: the real sample configuration (see above)        kind 3: the child-process agent over TCP *)
+   kind 2: the real sample configuration (see above)        kind 3: the child-process agent over TCP
+   kind 4 / 5: kinds 0 / 1 run on one P so that the pooled LogRecord is handed back (Model/PipelinePool.v) *)
 Definition run_case_C07 (c : case) : bytes :=
   match c_kind c with
   | 2%N => run_sample c
@@ -302,12 +304,18 @@ Definition run_case_C07 (c : case) : bytes :=
     | None => s_cfgerr
     | Some (cfg, ss, zs) =>
       let now := (zarg c 5, zarg c 6) in
-      if (k =? 1)%N then
+      if ((k =? 1) || (k =? 5))%N then
         show_run cfg (conn_run Transforms.tiny_oracles cfg g_init now 0%Z (Framing.decode_events zs ss))
       else
         let ntab := Z.to_nat (hd 0%Z zs) in
         let table := take_table ntab ss (tl zs) in
         let seq := map (fun i => nth (Z.to_nat i) table []) (skipn (1 + ntab) zs) in
+        if (k =? 4)%N then
+          (* every record written into the object the previous one released (empty schedule = [sched_default]) *)
+          show_run cfg (PipelinePool.drop_pool
+                          (PipelinePool.process_records_pooled Transforms.tiny_oracles PipelinePool.FlagAssign cfg g_init
+                             (new_conn cfg) [] now 0%Z [] seq))
+        else
         show_run cfg (process_records Transforms.tiny_oracles cfg g_init (new_conn cfg) now 0%Z seq)
     end
   end.
